@@ -29,7 +29,7 @@ func poison(n int) []byte {
 }
 
 func optLLA(t byte, rng *lib.Rand) []byte { return append([]byte{t, 1}, rng.Bytes(6)...) }
-func optMTU(rng *lib.Rand) []byte        { return []byte{5, 1, 0, 0, 0, 0, 5, byte(rng.Intn(256))} }
+func optMTU(rng *lib.Rand) []byte         { return []byte{5, 1, 0, 0, 0, 0, 5, byte(rng.Intn(256))} }
 func optPI(rng *lib.Rand) []byte {
 	o := make([]byte, 32)
 	o[0], o[1] = 3, 4
@@ -239,6 +239,59 @@ func genNDP(cl *caseList, rng *lib.Rand, scale int) {
 		o[0], o[1] = 31, 33
 		add("dnssl", o)
 	}
+	// DNSSL at the bounds of its label loop: option of 255 units (2040 bytes) filled with 1-byte
+	// labels, with 63-byte labels, with one domain longer than 255, with no terminator up to the
+	// very last byte, terminator in the last / last but one byte
+	for _, units := range []int{2, 3, 31, 32, 33, 127, 128, 255} {
+		n := units*8 - 2 // value bytes
+		mk := func(fill func(v []byte)) {
+			o := make([]byte, units*8)
+			o[0], o[1] = 31, byte(units)
+			fill(o[8:]) // behind reserved + lifetime
+			_ = n
+			add("dnssl.bound", o)
+		}
+		mk(func(v []byte) { // 1-byte labels to the end
+			for i := 0; i+1 < len(v); i += 2 {
+				v[i], v[i+1] = 1, 'a'
+			}
+		})
+		mk(func(v []byte) { // 63-byte labels, never terminated
+			for i := 0; i < len(v); {
+				l := 63
+				if len(v)-i-1 < l {
+					l = len(v) - i - 1
+				}
+				if l <= 0 {
+					v[i] = 1
+					break
+				}
+				v[i] = byte(l)
+				for k := 1; k <= l; k++ {
+					v[i+k] = 'b'
+				}
+				i += 1 + l
+			}
+		})
+		mk(func(v []byte) { // many one-label domains: 1 'c' 0 ...
+			for i := 0; i+2 < len(v); i += 3 {
+				v[i], v[i+1], v[i+2] = 1, 'c', 0
+			}
+		})
+		mk(func(v []byte) { // label whose length reaches exactly / one beyond the end
+			if len(v) >= 2 {
+				v[0] = byte(min(len(v)-1, 255))
+			}
+		})
+		mk(func(v []byte) {
+			if len(v) >= 2 {
+				v[0] = byte(min(len(v)-2, 255))
+				for k := 1; k < len(v)-1 && k < 256; k++ {
+					v[k] = 'd'
+				}
+			}
+		})
+	}
 	// random bytes and single-byte mutations (length bytes are kept non-zero with high
 	// probability by construction: a mutation rarely hits one with value 0)
 	for k := 0; k < 150*scale; k++ {
@@ -341,5 +394,34 @@ func genHBH(cl *caseList, rng *lib.Rand, scale int) {
 	}
 	for k := 0; k < 100*scale; k++ {
 		add("random", rng.Bytes(rng.Intn(40)), spareOf(rng))
+	}
+	// option chains at the bounds: the largest header (255 -> 2048 bytes) filled with Pad1, with
+	// PadN of length 0 / 255, with options that end exactly at / one beyond / far beyond the end
+	for _, l1 := range []int{0, 1, 30, 31, 32, 254, 255} {
+		size := l1*8 + 8
+		mk := func(fill func(d []byte)) {
+			h := make([]byte, size)
+			h[0], h[1] = 58, byte(l1)
+			fill(h[2:])
+			add("chain", h, nil)
+			add("chain", append(h, 0, 0), nil) // IsValid wants two more bytes
+		}
+		mk(func(d []byte) {}) // all Pad1
+		mk(func(d []byte) {   // PadN of length 0: advances by 2
+			for i := 0; i+1 < len(d); i += 2 {
+				d[i], d[i+1] = 1, 0
+			}
+		})
+		mk(func(d []byte) { // PadN 255 repeated
+			for i := 0; i+1 < len(d); i += 257 {
+				d[i], d[i+1] = 1, 255
+			}
+		})
+		mk(func(d []byte) { d[0], d[1] = 1, byte(min(len(d)-2, 255)) }) // ends exactly at the end
+		mk(func(d []byte) { d[0], d[1] = 1, byte(min(len(d)-1, 255)) }) // one beyond
+		mk(func(d []byte) { d[0], d[1] = 0x3e, 255 })                   // unknown type, far beyond
+		mk(func(d []byte) { d[len(d)-1] = 1 })                          // PadN type in the last byte: no length byte
+		mk(func(d []byte) { d[len(d)-3] = 5 })                          // router alert cut off by the end
+		mk(func(d []byte) { d[len(d)-4] = 5 })                          // router alert ending exactly at the end
 	}
 }
